@@ -1,6 +1,7 @@
 import RjModel.Model.Settings
 import RjModel.Generated.Defaults
 import RjModel.Generated.PathDesc
+import RjModel.Generated.BehaviourWrites
 /-! # C16 — effective settings follow the documented precedence and defaults
 
 `Generated.fieldRules` is re-extracted from `resolve_spec` / `impl Default for SyncSpec` on every run;
@@ -149,5 +150,14 @@ backslash" - so `h:/abs/path` names a path on host `h` (and the function splits 
 theorem C16_path_desc_drive_guard :
     Generated.pathDescDriveGuard = "A.len()==1&&(B.is_empty()||B.starts_with('\\\\'))" ∧ Generated.pathDescSplits = 2 := by
   decide
+
+/-- **The behaviours in force change only by a remembered prompt answer** (extracted from boss_sync.rs on every run): the only assignments to a
+behaviour field of the sync context are the four `if let Some(b) = prompt_result.remembered_behaviour { ctx.<field> = b; }` inside the
+resolution of that same field - which is what the model's `Conf` does (`the resolved settings`: nothing else, in particular not the
+root-deletion gate, rewrites a behaviour after `resolve_spec`). -/
+theorem C16_behaviours_change_only_by_remembered_answers :
+    Generated.behaviourWrites = [("dest_entry_needs_deleting_behaviour", "remembered"), ("dest_file_newer_behaviour", "remembered"),
+      ("dest_file_older_behaviour", "remembered"), ("files_same_time_behaviour", "remembered")] := by decide
+
 
 end Rj.C16
